@@ -9,9 +9,9 @@ From SV Require Import Base.Base IR.State IR.NS IR.Ops Proofs.Inv1a Proofs.Inv2a
 Import ListNotations.
 
 (* C10's invariant as seen by the queries: under key k, what global_service.lookup answers for a
-   parent agrees with the linear scan of its children, and sibling values are pairwise different *)
+   parent agrees with the linear scan of its children (every child carrying the value) *)
 Definition LookOK (s : state) (reg : bool) (k : str) (r : rel) : Prop :=
-  forall p, lookup_ok (key_of s k) (lk_of s reg k r p) (kids s r p) /\ uniq_keys (key_of s k) (kids s r p).
+  forall p, lookup_ok (key_of s k) (lk_of s reg k r p) (kids s r p).
 
 Lemma lookok_parents s reg k r ps : LookOK s reg k r -> lookups_ok (key_of s k) (parents_of s reg k r ps).
 Proof. intro H. unfold lookups_ok, parents_of. apply Forall_forall. intros pr Hp. apply in_map_iff in Hp as (p & <- & _). apply H. Qed.
@@ -79,13 +79,12 @@ Proof.
   rewrite (run_query_perm _ _ key nk bk _ os pats pats' (lookok_parents s _ _ r ps HL) Hp HP e). tauto.
 Qed.
 
-(* nothing is yielded twice: always for get_ports / get_cables, and whenever the root reaches no
-   element for the name-map stage *)
-Theorem two_stage_NoDup ps os pats res : bk = BNames true \/ os = [] ->
+(* nothing is yielded twice *)
+Theorem two_stage_NoDup ps os pats res :
   two_stage s o nk bk r (WOk (ps, os)) pats = WOk res -> NoDup res.
 Proof.
-  intros Hc H. unfold two_stage, wmap in H. cbn [fst snd] in H. injection H as <-. apply NoDup_filter. destruct Hc as [->| ->];
-    [apply run_query_NoDup_names|apply run_query_NoDup_stageA].
+  intros H. unfold two_stage, wmap in H. cbn [fst snd] in H. injection H as <-. apply NoDup_filter.
+  apply run_query_NoDup.
 Qed.
 End TwoStage.
 
@@ -132,13 +131,11 @@ Proof.
   destruct (cands_instances_spec s W rec inside fuel it ps os E) as [HA HB]. unfold candidate. rewrite HA, HB, keyok_true. tauto.
 Qed.
 
-Theorem query_instances_NoDup fuel it rec inside pats res :
-  (forall e, ~ reachB_instances s rec inside it e) ->
-  query_instances s o fuel [it] rec inside pats = WOk res -> NoDup res.
+Theorem query_instances_NoDup fuel roots rec inside pats res :
+  query_instances s o fuel roots rec inside pats = WOk res -> NoDup res.
 Proof.
-  intros Hn H. unfold query_instances in H. destruct (two_stage_ok _ _ _ _ _ _ _ _ H) as (ps & os & E). rewrite E in H.
-  apply (two_stage_NoDup s o true BFound RChildren ps os pats res); [right|exact H].
-  apply nil_of_no_member. intros e He. apply (Hn e). apply (proj2 (cands_instances_spec s W rec inside fuel it ps os E)). exact He.
+  intros H. unfold query_instances in H. destruct (two_stage_ok _ _ _ _ _ _ _ _ H) as (ps & os & E). rewrite E in H.
+  apply (two_stage_NoDup s o true BFound RChildren ps os pats res). exact H.
 Qed.
 
 (* ---- get_definitions ---- *)
@@ -149,17 +146,15 @@ Theorem query_definitions_spec fuel it rec inside pats res :
     (reachA_definitions s inside it e \/ reachB_definitions s rec inside it e) /\ matching pats e.
 Proof.
   intros HL Hp H e. unfold query_definitions in H. destruct (two_stage_ok _ _ _ _ _ _ _ _ H) as (ps & os & E). rewrite E in H.
-  rewrite (two_stage_spec s o false (BNames false) RDefs HL ps os pats res Hp H e).
+  rewrite (two_stage_spec s o false BNames RDefs HL ps os pats res Hp H e).
   destruct (cands_definitions_spec s W rec inside fuel it ps os E) as (HA & HB & _). unfold candidate. rewrite HA, HB, keyok_false. tauto.
 Qed.
 
-Theorem query_definitions_NoDup fuel it rec inside pats res :
-  (forall e, ~ reachB_definitions s rec inside it e) ->
-  query_definitions s o fuel [it] rec inside pats = WOk res -> NoDup res.
+Theorem query_definitions_NoDup fuel roots rec inside pats res :
+  query_definitions s o fuel roots rec inside pats = WOk res -> NoDup res.
 Proof.
-  intros Hn H. unfold query_definitions in H. destruct (two_stage_ok _ _ _ _ _ _ _ _ H) as (ps & os & E). rewrite E in H.
-  apply (two_stage_NoDup s o false (BNames false) RDefs ps os pats res); [right|exact H].
-  apply nil_of_no_member. intros e He. apply (Hn e). destruct (cands_definitions_spec s W rec inside fuel it ps os E) as (_ & HB & _). apply HB, He.
+  intros H. unfold query_definitions in H. destruct (two_stage_ok _ _ _ _ _ _ _ _ H) as (ps & os & E). rewrite E in H.
+  apply (two_stage_NoDup s o false BNames RDefs ps os pats res). exact H.
 Qed.
 
 (* ---- get_libraries ---- *)
@@ -195,14 +190,11 @@ Proof.
   congruence.
 Qed.
 
-Theorem query_libraries_NoDup fuel it rec inside pats res :
-  (forall e, ~ reachB_libraries s rec inside it e) ->
-  ~ (rec = true /\ inside = false /\ exists x, item_owner s it x /\ kind_of s x = Some KInstance) ->
-  query_libraries s o fuel [it] rec inside pats = WOk res -> NoDup res.
+Theorem query_libraries_NoDup fuel roots rec inside pats res :
+  query_libraries s o fuel roots rec inside pats = WOk res -> NoDup res.
 Proof.
-  intros Hn Hx H. unfold query_libraries in H. destruct (two_stage_ok _ _ _ _ _ _ _ _ H) as (ps & os & E). rewrite E in H.
-  apply (two_stage_NoDup s o false BFound RLibs ps os pats res); [right|exact H].
-  apply nil_of_no_member. intros e He. apply (Hn e). destruct (cands_libraries_spec s W rec inside fuel it ps os E Hx) as (_ & HB & _). apply HB, He.
+  intros H. unfold query_libraries in H. destruct (two_stage_ok _ _ _ _ _ _ _ _ H) as (ps & os & E). rewrite E in H.
+  apply (two_stage_NoDup s o false BFound RLibs ps os pats res). exact H.
 Qed.
 
 (* ---- get_ports ---- *)
@@ -213,8 +205,8 @@ Theorem query_ports_spec fuel it pats res :
   forall e, In e res <-> (reachA_ports s it e \/ reachB_ports s it e) /\ matching pats e.
 Proof.
   intros HL Hp H. unfold query_ports in H. destruct (two_stage_ok _ _ _ _ _ _ _ _ H) as (ps & os & E). rewrite E in H. split.
-  - apply (two_stage_NoDup s o false (BNames true) RPorts ps os pats res); [left; reflexivity|exact H].
-  - intro e. rewrite (two_stage_spec s o false (BNames true) RPorts HL ps os pats res Hp H e).
+  - apply (two_stage_NoDup s o false BNames RPorts ps os pats res). exact H.
+  - intro e. rewrite (two_stage_spec s o false BNames RPorts HL ps os pats res Hp H e).
     destruct (cands_ports_spec s W fuel it ps os E) as (HA & HB & _). unfold candidate. rewrite HA, HB, keyok_false. tauto.
 Qed.
 
@@ -226,8 +218,8 @@ Theorem query_cables_spec fuel it rec x pats res :
   forall e, In e res <-> (reachA_cables s x it e \/ reachB_cables s rec x it e) /\ matching pats e.
 Proof.
   intros Hx HL Hp H. unfold query_cables in H. destruct (two_stage_ok _ _ _ _ _ _ _ _ H) as (ps & os & E). rewrite E in H. split.
-  - apply (two_stage_NoDup s o false (BNames true) RCables ps os pats res); [left; reflexivity|exact H].
-  - intro e. rewrite (two_stage_spec s o false (BNames true) RCables HL ps os pats res Hp H e).
+  - apply (two_stage_NoDup s o false BNames RCables ps os pats res). exact H.
+  - intro e. rewrite (two_stage_spec s o false BNames RCables HL ps os pats res Hp H e).
     destruct (cands_cables_spec s W rec x fuel it ps os Hx E) as (HA & HB & _). unfold candidate. rewrite HA, HB, keyok_false. tauto.
 Qed.
 
@@ -278,26 +270,61 @@ From SV Require Import Proofs.NsInv.
 Lemma find_ext {A} (f g : A -> bool) l : (forall x, f x = g x) -> find f l = find g l.
 Proof. intro H. induction l as [|a l IH]; cbn; [reflexivity|]. rewrite H, IH. reflexivity. Qed.
 
-Lemma scan_lookup_same s xs v : NS.scan_lookup s xs str_NAME v = Filter.scan_lookup (key_of s str_NAME) xs v.
+(* the first hit is the only hit when the list has no repetition and at most one element satisfies f *)
+Lemma find_is_filter (f : id -> bool) l : NoDup l ->
+  (forall a b, In a l -> In b l -> f a = true -> f b = true -> a = b) ->
+  opt_list (find f l) = filter f l.
 Proof.
-  unfold NS.scan_lookup, Filter.scan_lookup, key_of, get_str. apply find_ext. intro x.
-  destruct (sassoc str_NAME (data s x)) as [[w| | |]|]; reflexivity.
+  induction l as [|x l IH]; intros Hnd Hu; cbn [find filter]; [reflexivity|].
+  inversion Hnd as [|? ? Hx Hl]; subst. destruct (f x) eqn:Ex.
+  - cbn [opt_list]. f_equal. symmetry.
+    assert (Hnone : forall y, In y l -> f y = false).
+    { intros y Hy. destruct (f y) eqn:Ey; [|reflexivity]. exfalso. apply Hx.
+      rewrite (Hu x y (or_introl eq_refl) (or_intror Hy) Ex Ey). exact Hy. }
+    clear -Hnone. induction l as [|y l IH]; cbn [filter]; [reflexivity|].
+    rewrite (Hnone y (or_introl eq_refl)). apply IH. intros z Hz. apply Hnone. right. exact Hz.
+  - apply IH; [exact Hl|]. intros a b Ha Hb. apply Hu; right; assumption.
 Qed.
 
-Theorem lookok_name s reg r :
-  NsInv s -> ns_rel r = true -> (forall p, kids s r p <> [] -> nstab s p <> None) -> LookOK s reg str_NAME r.
+Lemma scan_lookup_same s xs v : NoDup xs ->
+  (forall c1 c2 w, In c1 xs -> In c2 xs -> key_of s str_NAME c1 = Some w -> key_of s str_NAME c2 = Some w -> c1 = c2) ->
+  opt_list (NS.scan_lookup s xs str_NAME v) = Filter.scan_lookup (key_of s str_NAME) xs v.
 Proof.
-  intros HN Hr Ht p. destruct (nstab s p) as [t|] eqn:Et.
-  - split.
-    + intro v. unfold lk_of. destruct (reg && registered_key str_NAME); [|reflexivity].
-      rewrite (lookup_is_scan_name s p t r v HN Et Hr). apply scan_lookup_same.
-    + intros c1 c2 w H1 H2 K1 K2. apply (names_unique s p t r c1 c2 w HN Et Hr H1 H2 K1 K2).
-  - assert (Hk : kids s r p = []).
-    { destruct (kids s r p) eqn:E; [reflexivity|]. exfalso. apply (Ht p); [rewrite E; discriminate|exact Et]. }
-    split.
-    + intro v. unfold lk_of, fast_lookup. rewrite Et, Hk. destruct (reg && registered_key str_NAME); reflexivity.
-    + rewrite Hk. intros c1 c2 w [].
+  intros Hnd Hu. unfold NS.scan_lookup, Filter.scan_lookup.
+  rewrite (find_ext _ (fun c => match key_of s str_NAME c with Some w => str_eqb v w | None => false end)).
+  - apply find_is_filter; [exact Hnd|]. intros a b Ha Hb Fa Fb.
+    destruct (key_of s str_NAME a) as [wa|] eqn:Ka; [|discriminate]. destruct (key_of s str_NAME b) as [wb|] eqn:Kb; [|discriminate].
+    apply str_eqb_spec in Fa. apply str_eqb_spec in Fb. subst wa wb. apply (Hu a b v Ha Hb Ka Kb).
+  - intro x. unfold key_of, get_str. destruct (sassoc str_NAME (data s x)) as [[w| | |]|]; reflexivity.
 Qed.
+
+(* under .NAME the namespace table answers like the scan: sibling names are pairwise different (C10)
+   and no child is listed twice (C01); a parent without a table is scanned *)
+Theorem lookok_name s reg r :
+  NsInv s -> ns_rel r = true -> (forall p, NoDup (kids s r p)) -> LookOK s reg str_NAME r.
+Proof.
+  intros HN Hr Hnd p v. unfold lk_of. destruct (reg && registered_key str_NAME); [|reflexivity].
+  destruct (nstab s p) as [t|] eqn:Et; [|reflexivity].
+  assert (Hi : ns_indexes t str_NAME = true) by (unfold ns_indexes; destruct (ns_pol t); [apply str_eqb_refl|reflexivity]).
+  rewrite Hi. rewrite (lookup_is_scan_name s p t r v HN Et Hr). apply scan_lookup_same; [apply Hnd|].
+  intros c1 c2 w H1 H2 K1 K2. apply (names_unique s p t r c1 c2 w HN Et Hr H1 H2 K1 K2).
+Qed.
+
+(* under the DEFAULT policy the namespaces keep no index for any other key (EDIF.identifier): the
+   registered lookup answers NotImplemented and global_service.lookup scans (finding C13-K3 repaired:
+   it used to answer "nothing") *)
+Theorem lookok_default_policy s reg k r :
+  (forall p t, nstab s p = Some t -> ns_pol t = PolDefault) -> str_eqb k str_NAME = false -> LookOK s reg k r.
+Proof.
+  intros Hd Hk p v. unfold lk_of. destruct (reg && registered_key k); [|reflexivity].
+  destruct (nstab s p) as [t|] eqn:Et; [|reflexivity].
+  unfold ns_indexes. rewrite (Hd p t Et), Hk. reflexivity.
+Qed.
+
+(* a key for which no fast lookup is registered (user keys), or any key with the lookups deregistered:
+   global_service.lookup is the scan - no hypothesis on the values (since the repair of finding C13-K5) *)
+Theorem lookok_scan s reg k r : reg && registered_key k = false -> LookOK s reg k r.
+Proof. intros H p v. unfold lk_of. rewrite H. reflexivity. Qed.
 
 (* ---- the clauses of C13 that hold for every two-stage function, stated per function ---- *)
 Section Clauses.
@@ -372,7 +399,7 @@ Proof. apply two_stage_fast_eq_scan. Qed.
 Theorem ports_NoDup fuel roots pats res : query_ports s o fuel roots pats = WOk res -> NoDup res.
 Proof.
   intro H. unfold query_ports in H. destruct (two_stage_ok _ _ _ _ _ _ _ _ H) as (ps & os & E). rewrite E in H.
-  apply (two_stage_NoDup s o false (BNames true) RPorts ps os pats res); [left; reflexivity|exact H].
+  apply (two_stage_NoDup s o false BNames RPorts ps os pats res). exact H.
 Qed.
 
 Theorem cables_filters_unfiltered fuel roots rec x pats res ures :
@@ -393,6 +420,6 @@ Proof. apply two_stage_fast_eq_scan. Qed.
 Theorem cables_NoDup fuel roots rec x pats res : query_cables s o fuel roots rec x pats = WOk res -> NoDup res.
 Proof.
   intro H. unfold query_cables in H. destruct (two_stage_ok _ _ _ _ _ _ _ _ H) as (ps & os & E). rewrite E in H.
-  apply (two_stage_NoDup s o false (BNames true) RCables ps os pats res); [left; reflexivity|exact H].
+  apply (two_stage_NoDup s o false BNames RCables ps os pats res). exact H.
 Qed.
 End Clauses.
